@@ -15,7 +15,7 @@
     trees, no two variables for one leaf, all sources agreeing on the shape at
     every path, outside the shapes of the open findings C20-F3/C20-F4. *)
 From HV Require Import Base.Prelude C20.Model C20.Spec C20.Facts C20.MergeProofs C20.LoadProofs C20.Proofs.
-From HV Require Import C20.SchemaModel Gen.SchemaTables C20.SchemaProofs C20.ScopeProofs C20.MergePanic C20.NamingProofs C20.SplitProofs.
+From HV Require Import C20.SchemaModel C20.SchemaPinned Gen.SchemaTables C20.SchemaProofs C20.ScopeProofs C20.MergePanic C20.NamingProofs C20.SplitProofs.
 From Coq Require Import Permutation.
 Open Scope string_scope.
 
@@ -151,14 +151,19 @@ Theorem C20_schema_loader_agree :
 Proof. exact schema_loader_agree. Qed.
 Print Assumptions C20_schema_loader_agree.
 
+(** the witnesses of C20-F1 are stated about the tables as extracted when the
+    finding was recorded ([pinned_*], C20/SchemaPinned.v), so that a repaired tree
+    does not break the build; whether the current tree still shows them is
+    reported by the replay stream on every run *)
 Theorem C20_F1_refuted :
-  exists r, In r (all_rows schema_tbl loader_tbl) /\ guard_F1 r = true /\
-            row_agrees schema_tbl loader_tbl r = false.
+  exists r, In r (all_rows pinned_schema_tbl pinned_loader_tbl) /\ guard_F1 r = true /\
+            row_agrees pinned_schema_tbl pinned_loader_tbl r = false.
 Proof. exact F1_refuted. Qed.
 Print Assumptions C20_F1_refuted.
 
 Theorem C20_F1_rows_all_disagree :
-  forall r, In r known_F1 -> In r (all_rows schema_tbl loader_tbl) /\ row_agrees schema_tbl loader_tbl r = false.
+  forall r, In r known_F1 ->
+    In r (all_rows pinned_schema_tbl pinned_loader_tbl) /\ row_agrees pinned_schema_tbl pinned_loader_tbl r = false.
 Proof. exact F1_rows_all_disagree. Qed.
 Print Assumptions C20_F1_rows_all_disagree.
 
